@@ -192,6 +192,12 @@ def model_requests(case):
         reqs.append(('nkeep', [msel, s['nd'], [F(c) for c in chi]]))
         reqs.append(('filter_table', [table, [_key(x['name']) for x in s['fits'][:k]]]))
         reqs.append(('ranges', [[F(c) for c in chi[:k]]]))
+    # additional parameters: one column per dictionary, attached to the selected fits by name (Additional.attach_col)
+    for s in case['sources']:
+        chi = [x['chi2'] for x in s['fits']]
+        k = _keep_count(sel, s['nd'], chi)
+        for a in (case['additional'] or {}):
+            reqs.append(('attach', [[[_key(n), F(v)] for n, v in case['additional'][a].items()], [_key(x['name']) for x in s['fits'][:k]]]))
     return reqs
 
 
@@ -246,6 +252,10 @@ def judge(case, im, mo):
         if k >= 2 and tnames != sorted(tnames):
             nontrivial = True
         want_rows = [[cols[c][tnames.index(x['name'])] for c in colnames] + [case['additional'][a][x['name']] for a in addnames] for x in kept]
+        for ai, a in enumerate(addnames):       # the model's column for this dictionary against the by-name oracle
+            mcol = mo[3 * len(case['sources']) + si * len(addnames) + ai]
+            if isinstance(mcol, tuple) or mcol == [] or [float(v) for v in mcol[0]] != [case['additional'][a][x['name']] for x in kept]:
+                disagree.append('model attach_col for %s: %r, by-name values %r' % (a, mcol, [case['additional'][a][x['name']] for x in kept]))
         if o['name'] != s['name']:
             fail.append('sources: source %d is listed as %s' % (si, o['name']))
             continue
